@@ -99,6 +99,43 @@ fn check_block(k: u32, t: u16, max_win: u32) -> Result<u64, String> {
         }
         n += 1;
     }
+    // long windows: lengths around the number of intermediate symbols L and around K, K', 2L, 1000 (any length at
+    // which an implementation might switch strategy), at two offsets; checked against single requests at the
+    // window's first, middle and last positions and against the next window
+    {
+        let p = rfcref::params_for_k(k);
+        let mut lens: Vec<u32> = vec![];
+        for c in [p.L, p.Kp, k, 2 * p.L, 64, 256, 1000] {
+            for d in [-1i64, 0, 1] {
+                let l = c as i64 + d;
+                if l > max_win as i64 && l <= 3000 && (k <= 1100 || l <= 300) {
+                    lens.push(l as u32);
+                }
+            }
+        }
+        lens.sort_unstable();
+        lens.dedup();
+        for &len in &lens {
+            for s in [0u32, 5] {
+                let w = guarded(|| enc.repair_packets(s, len)).map_err(|e| format!("K={}: repair_packets({}, {}) panicked: {}", k, s, len, e))?;
+                if w.len() != len as usize {
+                    return Err(format!("K={}: window({}, {}) has {} packets", k, s, len, w.len()));
+                }
+                for i in [0u32, 1, len / 2, len - 2, len - 1] {
+                    let one = guarded(|| enc.repair_packets(s + i, 1)).map_err(|e| format!("K={}: panic {}", k, e))?;
+                    if w[i as usize] != one[0] {
+                        return Err(format!("K={}: window({}, {})[{}] (ESI {}) differs from the single-packet request", k, s, len, i, k + s + i));
+                    }
+                }
+                // the short window list computed above overlaps the beginning
+                let upto = (max_win.saturating_sub(s)).min(len) as usize;
+                if w[..upto] != base[(k + s) as usize..(k + s) as usize + upto] {
+                    return Err(format!("K={}: window({}, {}) disagrees with window(0, {}) on the overlap", k, s, len, max_win));
+                }
+                n += 1;
+            }
+        }
+    }
     // far end: the last producible ESI is 2^24 - 1
     let last_start = (1u32 << 24) - k;
     for len in 1..=4u32 {
@@ -311,7 +348,7 @@ pub fn run(ctx: &Ctx) -> i32 {
     st.sample(json!({"kind":"object","config":[23,4,3,2,2],"r":3,"ids":"SBN0: 0..K0+2, SBN1: 0..K1+2, SBN2: ..."}));
     finish(ctx, &st, Finish {
         level: "exploration",
-        rule: format!("for K in the {} ladder (T in {{1,5}}): every window (s,n), s+n<=24, equals the n single requests; overlapping windows agree; windows ending at ESI 2^24-1; six ways to obtain an encoder for the same K give identical packets; whole repair stream (2^24-K packets) of K in {} tiled by 65536 and by 4099 and compared per ESI with the reference; object level: every configuration of a (T<={},Kt<=6,Z<=3) box x r in {{0,1,3}}: id list = per block ESIs 0..K+r-1 with that block's SBN, and every block's packets (source, repair windows near and at ESI 2^24-1) equal those of a stand-alone SourceBlockEncoder::new and of with_encoding_plan(freshly generated plan) for the same bytes; the same for {} tall objects (every symbol count 2..={}, Z=2..{}, so that block sizes KL=KS+1 straddle every table size K' in range).", if ctx.quick() { "mid" } else { "large" }, if ctx.quick() { "{10}" } else { "{10,257}" }, ts.len(), tall.len(), max_kt, if ctx.quick() { 5 } else { 7 }),
+        rule: format!("for K in the {} ladder (T in {{1,5}}): every window (s,n), s+n<=24, equals the n single requests; long windows (lengths L, K', K, 2L, 64, 256, 1000, each +-1, at offsets 0 and 5) agree with single requests and with the short windows; overlapping windows agree; windows ending at ESI 2^24-1; six ways to obtain an encoder for the same K give identical packets; whole repair stream (2^24-K packets) of K in {} tiled by 65536 and by 4099 and compared per ESI with the reference; object level: every configuration of a (T<={},Kt<=6,Z<=3) box x r in {{0,1,3}}: id list = per block ESIs 0..K+r-1 with that block's SBN, and every block's packets (source, repair windows near and at ESI 2^24-1) equal those of a stand-alone SourceBlockEncoder::new and of with_encoding_plan(freshly generated plan) for the same bytes; the same for {} tall objects (every symbol count 2..={}, Z=2..{}, so that block sizes KL=KS+1 straddle every table size K' in range).", if ctx.quick() { "mid" } else { "large" }, if ctx.quick() { "{10}" } else { "{10,257}" }, ts.len(), tall.len(), max_kt, if ctx.quick() { 5 } else { 7 }),
         exhaustive: false,
         assumptions: vec!["requests with K+s+n > 2^24 are outside the property's quantifier and are not judged".into()],
         extra: Map::new(),
